@@ -620,3 +620,134 @@ def run_world(rnd, n_cases, deep=False):
                                         "case": {"family": "world", "cmds": iso[:600], "meta": {}, "tags": []}})
                 break
     return res
+
+
+# ------------------------------------------------------------------ constructed witnesses for broken DATA obligations
+
+def _impl_data():
+    """the data tables of the implementation under test, dumped by importing it"""
+    code = ("import json,sys\n"
+            "import hpack.huffman_table as ht, hpack.huffman_constants as hc\n"
+            "from hpack.table import HeaderTable\n"
+            "json.dump({'table': [list(x) for x in ht.HUFFMAN_TABLE], 'C': ht.HUFFMAN_COMPLETE, 'E': ht.HUFFMAN_EMIT_SYMBOL, 'F': ht.HUFFMAN_FAIL,\n"
+            "  'codes': list(hc.REQUEST_CODES), 'lens': list(hc.REQUEST_CODES_LENGTH),\n"
+            "  'static': [[n.hex(), v.hex()] for n, v in HeaderTable.STATIC_TABLE]}, sys.stdout)\n")
+    env = dict(os.environ, PYTHONPATH=REPO_SRC, PYTHONHASHSEED="0")
+    p = subprocess.run([PY, "-c", code], env=env, capture_output=True, text=True, timeout=120)
+    if p.returncode != 0:
+        return None
+    import json
+    return json.loads(p.stdout)
+
+
+def data_witnesses():
+    """When a data certificate (Huffman decoding table, code lists, static table) no longer
+    checks, the failing input is CONSTRUCTED rather than searched: every entry of the
+    implementation's tables is compared with the specification's, and for each differing entry
+    an input that exercises it is built (a shortest nibble path to the FSM state, the one-symbol
+    string, the index).  Returns cases for the ordinary oracles."""
+    d = _impl_data()
+    cases = []
+    if d is None:
+        return cases
+    # --- code lists: one- and two-symbol strings for every symbol whose code or length differs
+    bad_syms = [b for b in range(256) if b >= len(d["codes"]) or b >= len(d["lens"])
+                or (d["codes"][b], d["lens"][b]) != S.CODES[b]]
+    for b in bad_syms[:64]:
+        cmds = []
+        for s in (bytes([b]), bytes([b, b]), b"0" + bytes([b]), bytes([b]) + b"0a"):
+            cmds += ["henc M %s" % s.hex(), "hdec M %s" % S.huff_enc(s).hex()]
+        cases.append({"family": "huff", "cmds": cmds, "meta": {"witness": "code of symbol %d" % b}, "tags": ["witness"]})
+    # --- static table: every differing index
+    for i, (n, v) in enumerate(d["static"]):
+        if i >= len(S.STATIC) or (bytes.fromhex(n), bytes.fromhex(v)) != S.STATIC[i]:
+            cases.append({"family": "table", "cmds": ["tnew M w%d" % i, "tget M w%d %x" % (i, i + 1),
+                                                      "tsearch M w%d %s %s" % (i, n or "-", v or "-")],
+                          "meta": {"witness": "static entry %d" % (i + 1)}, "tags": ["witness"]})
+            cases.append({"family": "dec", "cmds": ["dnew wd%d 10000" % i, "ddec wd%d 1 %02x" % (i, 0x80 | (i + 1))],
+                          "meta": {"witness": "static entry %d" % (i + 1)}, "tags": ["witness"]})
+    if len(d["static"]) != len(S.STATIC):
+        cases.append({"family": "dec", "cmds": ["dnew wdl 10000", "ddec wdl 1 bd", "ddec wdl 1 be", "ddec wdl 1 bc"],
+                      "meta": {"witness": "static table length"}, "tags": ["witness"]})
+    # --- decoding FSM: walk the implementation's table alongside the code tree of the Spec
+    codes = {format(c, "0%db" % l): b for b, (c, l) in enumerate(S.CODES)}
+    prefixes = set()
+    for bits in codes:
+        for k in range(len(bits)):
+            prefixes.add(bits[:k])
+
+    def ref_step(prefix, nib):
+        emitted, fail = None, False
+        for ch in format(nib, "04b"):
+            prefix += ch
+            if prefix in codes:
+                if codes[prefix] == 256:
+                    fail = True
+                    break
+                emitted = codes[prefix]
+                prefix = ""
+            elif prefix not in prefixes:
+                fail = True
+                break
+        return prefix, emitted, fail
+
+    tbl, C, E, F = d["table"], d["C"], d["E"], d["F"]
+    path = {0: []}                 # impl state -> nibble path from the root
+    pref = {0: ""}
+    queue = [0]
+    bad = []
+    while queue:
+        s = queue.pop(0)
+        for x in range(16):
+            idx = 16 * s + x
+            if idx >= len(tbl):
+                bad.append((s, x, "missing entry"))
+                continue
+            ns, fl, sym = tbl[idx]
+            rp, remit, rfail = ref_step(pref[s], x)
+            accept = len(rp) < 8 and set(rp) <= {"1"}
+            if rfail:
+                if not (fl & F):
+                    bad.append((s, x, "a transition that completes EOS or leaves the code is not marked FAIL"))
+                continue
+            if fl & F:
+                bad.append((s, x, "valid transition marked FAIL"))
+                continue
+            if bool(fl & E) != (remit is not None) or (remit is not None and sym != remit):
+                bad.append((s, x, "emitted symbol"))
+            if bool(fl & C) != accept:
+                bad.append((s, x, "COMPLETE flag (padding acceptance)"))
+            if ns in pref:
+                if pref[ns] != rp:
+                    bad.append((s, x, "successor state"))
+            elif 0 <= ns < len(tbl) // 16 + 1:
+                pref[ns] = rp
+                path[ns] = path[s] + [x]
+                queue.append(ns)
+            else:
+                bad.append((s, x, "successor state out of range"))
+    seen = set()
+    for s, x, why in bad[:40]:
+        if (s, x) in seen:
+            continue
+        seen.add((s, x))
+        # reach the state by the bits  codes('0' * k) ++ (its prefix) and feed the nibble, choosing k so
+        # that the input ends exactly after the nibble; also variants that go on (padding, symbols)
+        cands = []
+        core = pref.get(s, "") + format(x, "04b")
+        for k in range(8):
+            bits = "00000" * k + core
+            if len(bits) % 8 == 0:
+                cands.append(S.bits_to_bytes(bits))
+                cands.append(S.bits_to_bytes(bits + "11111111"))
+                cands.append(S.bits_to_bytes(bits + "00000" + "111"))
+            else:
+                pad = (8 - len(bits) % 8) % 8
+                cands.append(S.bits_to_bytes(bits + "1" * pad))
+                cands.append(S.bits_to_bytes(bits + "0" * pad))
+        cmds = []
+        for c in cands:
+            cmds.append("hdec M %s" % c.hex())
+            cmds.append("hdec S %s" % c.hex())
+        cases.append({"family": "huff", "cmds": cmds, "meta": {"witness": "FSM state %d nibble %d: %s" % (s, x, why)}, "tags": ["witness"]})
+    return cases
